@@ -82,7 +82,7 @@ _SCHEMES = ['http', 'https', 'ftp', 'HTTP', 'hTTps']
 _HOSTS = ['example.com', 'EXAMPLE.Com', 'b\xfccher.example', 'xn--bcher-kva.example', '192.168.0.1', '0xC0.0250.0.1', '3232235521', '0xC0A80001',
           '[::1]', '[0:0:0:0:0:0:0:1]', '[2001:DB8::A]', 'example.com.', '0x7F\u30020\u30020\u30021', '127\uff0e0\uff0e0\uff0e1', 'ex\uff61ample.com',
           '\uff11\uff12\uff17.0.0.1', 'E\u0301xample.com', '010.1.1.1', '1.2.3', 'localhost', 'a-b.example', 'EX%41MPLE.com', 'example\u3002com',
-          '0300.0250.0.01']
+          '0300.0250.0.01', '\uff10\uff587F.0.0.1', '\uff10177.0.0.1', '\uff12130706433', '0x7f.0.0\uff0e1']
 _USERINFO = ['', 'user@', 'User:Pass@', 'u%40x:p%3Aq@', '%2541@', 'u:%25%34%31@', ':p@', 'a b@', 'u%00@']
 _SEGS = ['a', '.', '..', '', '%2e', '%2E', '%2F', '%7e', '~', ' ', '\xe9', '%C3%A9', 'a%2fb', '%', '%zz', 'A', '%41', 'a;b', '+']
 _QUERIES = ['', '?', '?a=b', '?a b', '?a+b', '?%2f%2F', '?\xe9', '?a=1#f', '#frag', '?a=1&a=2', '?%', '?q=a%20b']
@@ -164,7 +164,11 @@ def _respell(si, hi, s1, s2, nseg, qi, t, pos):
 _IPV4 = [0, 1, 7, 8, 9, 10, 127, 255, 256, 65535, 16777215]
 
 
-def _ipv4_spellings(o1, o2, o3, o4, r1, r2, r3, r4, form):
+_WIDE = {'0': '\uff10', '1': '\uff11', '2': '\uff12', '3': '\uff13', '4': '\uff14', '5': '\uff15', '6': '\uff16', '7': '\uff17',
+         '8': '\uff18', '9': '\uff19', 'x': '\uff58', 'X': '\uff38', '.': '\uff0e'}
+
+
+def _ipv4_spellings(o1, o2, o3, o4, r1, r2, r3, r4, form, wide=0):
     """Dotted / numeric, decimal / octal / hexadecimal spellings of one IPv4 address normalise to the same dotted decimal."""
     def spell(n, r):
         return (str(n), ('0%o' % n) if n else '0', '0x%X' % n, '0x%x' % n)[r]
@@ -176,8 +180,14 @@ def _ipv4_spellings(o1, o2, o3, o4, r1, r2, r3, r4, form):
     else:
         n = (octs[0] << 24) | (octs[1] << 16) | (octs[2] << 8) | octs[3]
         host = spell(n, rs[0])
+    if wide == 1:
+        host = _WIDE.get(host[0], host[0]) + host[1:]            # first character in its full-width (IDNA-equivalent) form
+    elif wide == 2:
+        host = ''.join(_WIDE.get(c, c) for c in host)             # every digit, radix letter and dot full-width
     a = N('http://' + host + '/')
     hit('form%d' % form)
+    if wide:
+        hit('wide')
     return a.hostname == dotted and a.url == 'http://' + dotted + '/' and N(a.url).url == a.url
 
 
@@ -295,13 +305,14 @@ HARNESSES = [
       funcs=['wpull/url.py:URLInfo.parse', 'wpull/url.py:flatten_path', 'wpull/url.py:uppercase_percent_encoding'],
       doc='spellings that differ only in scheme/host case, explicit default port, inserted "./", "x/../", "//", an appended fragment, '
           'lower-case escapes, surrounding whitespace, or a trailing "/." or "/x/.." instead of "/", normalise to the same string'),
-    H('ipv4_spellings', '_ipv4_spellings', 'o1: int, o2: int, o3: int, o4: int, r1: int, r2: int, r3: int, r4: int, form: int',
-      pre=[' and '.join('0 <= %s <= 7' % v for v in ('o1', 'o2', 'o3', 'o4')) + ' and ' + ' and '.join('0 <= %s <= 3' % v for v in ('r1', 'r2', 'r3', 'r4')) + ' and 0 <= form <= 1'],
-      parts={'quick': [{'tag': 'dotted', 'fix': _fx(form=0, o3=1, o4=7, r3=0), 'pre': ['r4 <= 1']}, {'tag': 'number', 'fix': _fx(form=1, r2=0, r3=0, r4=0, o2=1)}],
-             'thorough': [{'tag': 'f%d_r%d' % (f, r), 'fix': _fx(form=f, r1=r)} for f in (0, 1) for r in range(4)]},
-      timeout={'quick': 250, 'thorough': 1800}, samples=[(6, 0, 0, 1, 2, 1, 0, 0, 0), (6, 0, 0, 1, 3, 0, 0, 0, 1)], need=['form0', 'form1'],
+    H('ipv4_spellings', '_ipv4_spellings', 'o1: int, o2: int, o3: int, o4: int, r1: int, r2: int, r3: int, r4: int, form: int, wide: int',
+      pre=[' and '.join('0 <= %s <= 7' % v for v in ('o1', 'o2', 'o3', 'o4')) + ' and ' + ' and '.join('0 <= %s <= 3' % v for v in ('r1', 'r2', 'r3', 'r4')) + ' and 0 <= form <= 1 and 0 <= wide <= 2'],
+      parts={'quick': [{'tag': 'dotted', 'fix': _fx(form=0, o3=1, o4=7, r3=0, wide=0), 'pre': ['r4 <= 1']}, {'tag': 'number', 'fix': _fx(form=1, r2=0, r3=0, r4=0, o2=1, wide=0)},
+                       {'tag': 'wide', 'fix': _fx(o2=1, o3=0, o4=7, r2=0, r3=2, r4=1), 'pre': ['wide >= 1 and o1 >= 4']}],
+             'thorough': [{'tag': 'f%d_r%d_w%d' % (f, r, w), 'fix': _fx(form=f, r1=r, wide=w)} for f in (0, 1) for r in range(4) for w in range(3)]},
+      timeout={'quick': 250, 'thorough': 1800}, samples=[(6, 0, 0, 1, 2, 1, 0, 0, 0, 0), (6, 0, 0, 1, 3, 0, 0, 0, 1, 1)], need=['form0', 'form1', 'wide'],
       funcs=['wpull/url.py:normalize_ipv4_address', 'wpull/url.py:parse_ipv4_int'],
-      doc='decimal / octal / hexadecimal, dotted and single-number spellings of an IPv4 address normalise to dotted decimal'),
+      doc='decimal / octal / hexadecimal, dotted and single-number spellings of an IPv4 address - also written with full-width (IDNA-equivalent) digits, radix letter and dots - normalise to dotted decimal'),
     H('port_elision_pool', '_port_elision_pool', 'si: int, pi: int, ipv6: bool', pre=['0 <= si <= 5 and 0 <= pi < %d' % len(_PORTS_B)],
       timeout={'quick': 200, 'thorough': 600}, samples=[(0, 9, False), (1, 9, True)], need=['default', 'explicit', 'rejected'],
       funcs=['wpull/url.py:URLInfo.parse_host', 'wpull/url.py:URLInfo.url', 'wpull/url.py:URLInfo.hostname_with_port', 'wpull/url.py:URLInfo.is_port_default'],
